@@ -21,10 +21,16 @@ thread_local! { static TRACK: std::cell::Cell<bool> = const { std::cell::Cell::n
 fn tracking() -> bool {
     TRACK.try_with(|c| c.get()).unwrap_or(false)
 }
-fn tracked<T>(f: impl FnOnce() -> T) -> T {
-    TRACK.with(|c| c.set(true));
+pub fn tracked<T>(f: impl FnOnce() -> T) -> T {
+    let old = TRACK.with(|c| c.replace(true));
     let r = f();
-    TRACK.with(|c| c.set(false));
+    TRACK.with(|c| c.set(old));
+    r
+}
+pub fn untracked<T>(f: impl FnOnce() -> T) -> T {
+    let old = TRACK.with(|c| c.replace(false));
+    let r = f();
+    TRACK.with(|c| c.set(old));
     r
 }
 unsafe impl GlobalAlloc for Counting {
